@@ -31,7 +31,8 @@ C13_Complete == (IsTicks /\ Cnt >= 1) =>
     /\ (T.n[Cnt] + 1) * StepQ > T.hi - Tol
 C13_CountBounds == IsTicks => CountBounds(T.m, Cnt)
 C13_LabelsDistinct == IsTicks => \A i, j \in 1..Cnt : i # j => T.lab[i] # T.lab[j]
-C13_LabelsReadBack == IsTicks => \A i \in 1..Cnt : CAbsL(T.lq[i] - T.tq[i]) <= Tol
+\* (lok = 0: the label is not the text of a number at all)
+C13_LabelsReadBack == IsTicks => \A i \in 1..Cnt : T.lok[i] = 1 /\ CAbsL(T.lq[i] - T.tq[i]) <= Tol
 
 \* conformance of the operational tick model (LinTicks.Steps / TickNs) with the observed ticks: drift only
 Drift_LinModelExplainsTicks == (IsTicks /\ T.err = "" /\ T.hi - T.lo >= T.m /\ T.hi - T.lo < 60000000 /\ Cnt >= 2) =>
